@@ -103,6 +103,18 @@ Theorem C20_std_expression_example_passes : forall e n ls um r,
 Proof. exact std_expression_example_passes. Qed.
 Print Assumptions C20_std_expression_example_passes.
 
+(* ... and a raising example with an expected traceback (the block's final text against the last line of the formatted exception) *)
+Theorem C20_std_traceback_example_passes : forall e n ls last want,
+  extract_exc_want want = Some (join_nl ls) ->
+  ls <> [] -> Forall LineOK ls -> Plain last -> Plain (join_nl ls) ->
+  contains BLANKLINE last = false ->
+  true_for_1 (join_nl ls ++ [NL]) last = false ->
+  (e = true -> contains marker last = false) ->
+  std_check_output e n (join_nl ls ++ [NL]) last = true ->
+  check_exception default_flags last want = Some true.
+Proof. exact std_traceback_example_passes. Qed.
+Print Assumptions C20_std_traceback_example_passes.
+
 (* the lemma behind the ELLIPSIS-only case: the wildcard relation survives ' '.join(text.split()) on both texts *)
 Theorem C20_ellmatch_collapse : forall g w, EllMatch g w -> EllMatch (collapse_ws g) (collapse_ws w).
 Proof. exact ellmatch_collapse. Qed.
